@@ -43,7 +43,7 @@ Pedersen ==
 ProverCommit ==
   /\ IsEvent("prover_commit")
   /\ Ev.C = Commit([B |-> Ev.B, Bb |-> Ev.Bb], Ev.v, Ev.r)
-  /\ OpsMatch(Ev.tx, << OpA("V", "pt", Ev.C) >>)
+  /\ CmpOps => OpsMatch(Ev.tx, << OpA("V", "pt", Ev.C) >>)
 
 (* C10 *)
 IppCreate ==
